@@ -58,6 +58,8 @@ CloseVerdict(r) ==
               /\ Has(r, "drop_done_before_release") /\ r.drop_done_before_release
               /\ (r.changed_between_drop_and_worker_exit \/ r.mutating_calls_between_drop_and_worker_exit > 0)
            THEN V("C17", "background work that started after the drop changed the directory (" \o r.kind \o ")")
+    ELSE IF Has(r, "changes_by_others_after_the_drop_returned") /\ r.changes_by_others_after_the_drop_returned > 0
+           THEN V("C17", "after the drop had returned another thread of the store still changed the directory (" \o r.kind \o ")")
     ELSE IF r.reopen # "ok" THEN V("C17", "the directory cannot be opened again at once: " \o r.reopen)
     ELSE IF Has(r, "inflight") /\ r.inflight \notin {"ok", "closed"} THEN V("C17", "the operation in flight at the drop failed: " \o r.inflight)
     ELSE OK
@@ -108,9 +110,9 @@ BgVerdict(r) ==
         ELSE IF ~(\E k \in 2..Len(r.merge_starts) : r.merge_starts[k] <= r.merge_starts[1] + r.interval_ms + r.jitter_ms + SlackMs)
                THEN V("C18", "after a background merge failed no further merge is attempted although the trigger is still exceeded")
         ELSE OK
-    ELSE IF i.pattern \in {"frag", "dead", "late-del", "frag-reopen"} THEN
+    ELSE IF i.pattern \in {"frag", "dead", "late-del", "frag-reopen", "frag-held"} THEN
         IF ~r.can_merge THEN V("drift", "the write pattern did not cross the trigger")
-        ELSE IF i.pattern = "late-del" /\ r.merges_before_crossing > 0 THEN V("C18", "a merge ran although no merge trigger was exceeded yet (pattern late-del)")
+        ELSE IF i.pattern \in {"late-del", "frag-held"} /\ r.merges_before_crossing > 0 THEN V("C18", "a merge ran although no merge trigger was exceeded yet (pattern " \o i.pattern \o ")")
         ELSE IF ~(\E k \in 1..Len(r.merge_starts) : r.merge_starts[k] <= r.crossed_at + r.interval_ms + r.jitter_ms + SlackMs)
                THEN V("C18", "a trigger (" \o i.pattern \o ") is exceeded but no merge started within one check interval plus jitter")
         ELSE OK
